@@ -25,6 +25,14 @@ def run(chk):
         chk.rule("C15.R2", "exactness in the product with the RFC reference (skipped, see notes)")
     else:
         r2(chk, prog)
+    with chk.shared():
+        # the limit holds for the descriptor reader too only if it hands the whole text to one parse: a reader that parses block
+        # by block and goes on after an error turns "nesting too deep" into something else (shared with C20)
+        from . import c20
+        mu = prog.module("json_util.c")
+        chk.require(mu is not None, "json_util.c not in the build")
+        c20.r2(chk, prog, mu)
+        c20._confirm_shape_rules(chk, prog, mu, only={"C20.R2"})
     chk.undecided_clauses += [
         "the behavioural restatement on generated documents (accept iff nesting <= D) is the dynamic counterpart; here D ranges "
         "over the analysed limits and the inductive invariant covers every D",
